@@ -790,7 +790,7 @@ class Lexer:
             msg,
             token=ErrorToken(
                 type_=TokenType.ERROR,
-                index=self.pos,
+                index=self.start,
                 value=self.source[self.start : self.pos],
                 markup_start=self.markup_start,
                 markup_stop=self.pos,
